@@ -1526,3 +1526,179 @@ where
         A::obs_len(&o.0).or_else(|| B::obs_len(&o.1))
     }
 }
+
+// ------------------------------------------------------------------------------------------------
+// the built-in sum items over element types that are not ordinary numbers: SumAdd over the rings Z/m with zero divisors
+// (a modifier times a node length can vanish although the modifier does not), Sum over a type whose `+` is
+// concatenation (associative, not commutative - represented by its polynomial hash and the power of the base).
+
+#[derive(Clone, Copy, Debug, Default, PartialEq, Eq)]
+pub struct Zm<const M: u16>(pub u16);
+
+impl<const M: u16> std::ops::Add for Zm<M> {
+    type Output = Self;
+    fn add(self, o: Self) -> Self {
+        Zm((self.0 + o.0) % M)
+    }
+}
+
+impl<const M: u16> std::ops::Mul for Zm<M> {
+    type Output = Self;
+    fn mul(self, o: Self) -> Self {
+        Zm(((self.0 as u32 * o.0 as u32) % M as u32) as u16)
+    }
+}
+
+impl<const M: u16> rlib_num_traits::ZeroOne for Zm<M> {
+    const ZERO: Self = Zm(0);
+    const ONE: Self = Zm(1 % M);
+}
+
+#[derive(Debug, Clone)]
+pub struct SumAddZm<const M: u16>;
+
+impl<const M: u16> Algebra for SumAddZm<M> {
+    type Item = SumAdd<Zm<M>>;
+    type Mod = Zm<M>;
+    type Elem = u16;
+    type Obs = u16;
+    type Pred = NumPred;
+    fn name() -> String {
+        format!("SumAdd<Z/{}>", M)
+    }
+    fn gen_elem(rng: &mut Rng, _nonneg: bool) -> u16 {
+        rng.below(M as u64) as u16
+    }
+    fn gen_mod(rng: &mut Rng, _nonneg: bool) -> Zm<M> {
+        Zm(rng.below(M as u64) as u16)
+    }
+    fn leaf(e: &u16) -> Self::Item {
+        if e % 2 == 0 {
+            SumAdd::new(Zm(*e))
+        } else {
+            SumAdd::from(Zm(*e))
+        }
+    }
+    fn apply(e: &mut u16, m: &Zm<M>) {
+        *e = (*e + m.0) % M;
+    }
+    fn empty() -> u16 {
+        0
+    }
+    fn extend(o: &mut u16, e: &u16) {
+        *o = (*o + *e) % M;
+    }
+    fn extend_left(o: &mut u16, e: &u16) {
+        Self::extend(o, e)
+    }
+    fn observe(i: &Self::Item) -> u16 {
+        i.v.0
+    }
+    fn pending(i: &Self::Item) -> bool {
+        i.md.0 != 0
+    }
+    fn gen_pred(rng: &mut Rng, _shadow: &[u16]) -> NumPred {
+        // sums in Z/m are not monotone along growing ranges: only the two constant predicates are lawful
+        NumPred::Always(rng.chance(1, 2))
+    }
+    fn eval(p: &NumPred, o: &u16) -> bool {
+        eval_num(p, *o as i64)
+    }
+}
+
+const CAT_P: u64 = 4_294_967_291;
+const CAT_B: u64 = 1_000_003;
+
+#[derive(Clone, Copy, Debug, PartialEq, Eq)]
+pub struct Cat {
+    pub h: u64,
+    pub pw: u64,
+}
+
+impl Default for Cat {
+    fn default() -> Self {
+        Cat { h: 0, pw: 1 }
+    }
+}
+
+impl std::ops::Add for Cat {
+    type Output = Cat;
+    /// concatenation
+    fn add(self, o: Cat) -> Cat {
+        Cat { h: (self.h * o.pw + o.h) % CAT_P, pw: self.pw * o.pw % CAT_P }
+    }
+}
+
+#[derive(Debug, Clone)]
+pub struct SumCat;
+
+impl Algebra for SumCat {
+    type Item = Sum<Cat>;
+    type Mod = ();
+    type Elem = u8;
+    type Obs = (u64, u64);
+    type Pred = LenPred;
+    fn name() -> String {
+        "Sum<concatenation>".into()
+    }
+    fn has_mod() -> bool {
+        false
+    }
+    fn gen_elem(rng: &mut Rng, _nonneg: bool) -> u8 {
+        rng.below(5) as u8
+    }
+    fn gen_mod(_rng: &mut Rng, _nonneg: bool) {}
+    fn leaf(e: &u8) -> Self::Item {
+        let c = Cat { h: *e as u64 + 1, pw: CAT_B };
+        if e % 2 == 0 {
+            Sum::new(c)
+        } else {
+            Sum::from(c)
+        }
+    }
+    fn apply(_e: &mut u8, _m: &()) {}
+    fn empty() -> (u64, u64) {
+        (0, 1)
+    }
+    fn extend(o: &mut (u64, u64), e: &u8) {
+        *o = ((o.0 * CAT_B + *e as u64 + 1) % CAT_P, o.1 * CAT_B % CAT_P);
+    }
+    fn extend_left(o: &mut (u64, u64), e: &u8) {
+        *o = (((*e as u64 + 1) * o.1 + o.0) % CAT_P, o.1 * CAT_B % CAT_P);
+    }
+    fn observe(i: &Self::Item) -> (u64, u64) {
+        (i.v.h, i.v.pw)
+    }
+    fn pending(_i: &Self::Item) -> bool {
+        false
+    }
+    fn gen_pred(rng: &mut Rng, shadow: &[u8]) -> LenPred {
+        match rng.below(6) {
+            0 => LenPred::Always(true),
+            1 => LenPred::Always(false),
+            _ => LenPred::LenGe(rng.range_usize(1, shadow.len() + 1)),
+        }
+    }
+    fn eval(p: &LenPred, o: &(u64, u64)) -> bool {
+        // the power of the base identifies the length
+        match p {
+            LenPred::Always(b) => *b,
+            LenPred::LenGe(k) => {
+                let mut pw = 1u64;
+                for _ in 0..*k {
+                    pw = pw * CAT_B % CAT_P;
+                }
+                // length >= k  <=>  the range's power is not among B^0 .. B^(k-1)
+                let mut q = 1u64;
+                for _ in 0..*k {
+                    if q == o.1 {
+                        return false;
+                    }
+                    q = q * CAT_B % CAT_P;
+                }
+                let _ = pw;
+                true
+            }
+        }
+    }
+}
